@@ -108,6 +108,9 @@ def run(ctx: Ctx):
                        lambda s: "default_update / apply_instructions" if (s.func in (du, ai) or (s.func is not None and s.func.qualname.startswith("apply_instructions."))) else None,
                        "transitions are performed only by default_update and apply_instructions", 2)
     step_vehicle_rule(ctx)
+    # the vehicle-update phase threads its state: what one vehicle's update produced is what the next vehicle is stepped on, and a failed
+    # update keeps what the earlier vehicles of the step did (a reducer that falls back to the phase's initial state undoes them all)
+    ctx.attempt(rules.rule_fold_threading, ctx, "D2", ctx.repo.func("nrel/hive/state/simulation_state/update/step_simulation_ops.py", "perform_vehicle_state_updates"), 1)
     bounds(ctx)
     terminal(ctx)
     helpers(ctx)
